@@ -142,7 +142,14 @@ def refNames : List String := ["AUTHORS", "CONSRTM", "TITLE", "JOURNAL", "PUBMED
 def slotA (i : Fin 6) : Nat := if i.1 = 4 then 3 else 2
 def slotB (i : Fin 6) : Nat := match i.1 with | 2 => 5 | 5 => 4 | _ => 3
 def slotName (i : Fin 6) : String := refNames.getD i.1 ""
-def slotSet (i : Fin 6) : Reference → Bytes → Reference := (refAltList.getD i.1 ("", fun r _ => r)).2
+def slotSet (i : Fin 6) : Reference → Bytes → Reference :=
+  match i.1 with
+  | 0 => fun r b => { r with authors := b }
+  | 1 => fun r b => { r with group := b }
+  | 2 => fun r b => { r with title := b }
+  | 3 => fun r b => { r with journal := b }
+  | 4 => fun r b => { r with pubmed := some b }
+  | _ => fun r b => { r with comment := b }
 
 /-- the line(s) of one sub-field as they stand in the file -/
 def subLineText (l : SubLine) : Bytes :=
@@ -291,5 +298,76 @@ theorem refSubfields_lines (ls : List SubLine) (more : Bytes) (stk : List Bytes)
         refSubfield_line l stale r _ stk (hv l (by simp)) hmore]
       rw [ih _ _ k (fun x hx => hv x (by simp [hx])) (by simp only [List.length_cons] at hk; omega)]
       simp
+
+end Gts.GenBank
+
+namespace Gts.GenBank
+open Gts.Pars
+
+/-! ### the whole REFERENCE block -/
+
+/-- the sub-field lines `GenBank.String` writes for a reference, in its order -/
+def presentLines (r : Reference) : List SubLine :=
+  (if r.authors.isEmpty then [] else [⟨0, r.authors⟩]) ++
+  (if r.group.isEmpty then [] else [⟨1, r.group⟩]) ++
+  (if r.title.isEmpty then [] else [⟨2, r.title⟩]) ++
+  (if r.journal.isEmpty then [] else [⟨3, r.journal⟩]) ++
+  (match r.pubmed with | some v => [⟨4, v⟩] | none => []) ++
+  (if r.comment.isEmpty then [] else [⟨5, r.comment⟩])
+
+/-- the reference the reader starts from: number and info, everything else empty -/
+def blankRef (r : Reference) : Reference :=
+  { number := r.number, info := r.info, authors := [], group := [], title := [], journal := [],
+    pubmed := none, comment := [] }
+
+theorem fold_present (r : Reference) :
+    (presentLines r).foldl (fun q l => slotSet l.idx q l.v) (blankRef r) = r := by
+  obtain ⟨n, i, a, g, t, j, p, c⟩ := r
+  have v0 : ((0 : Fin 6) : Nat) = 0 := rfl
+  have v1 : ((1 : Fin 6) : Nat) = 1 := rfl
+  have v2 : ((2 : Fin 6) : Nat) = 2 := rfl
+  have v3 : ((3 : Fin 6) : Nat) = 3 := rfl
+  have v4 : ((4 : Fin 6) : Nat) = 4 := rfl
+  have v5 : ((5 : Fin 6) : Nat) = 5 := rfl
+  cases a <;> cases g <;> cases t <;> cases j <;> cases p <;> cases c <;>
+    simp [presentLines, blankRef, slotSet, v0, v1, v2, v3, v4, v5]
+
+/-- the head line of a reference without its line feed -/
+def refHead (r : Reference) : Bytes :=
+  if r.info.isEmpty then bs "REFERENCE   " ++ itoaB r.number
+  else bs "REFERENCE   " ++ itoaB r.number ++ sp (3 - (itoaB r.number).length) ++ r.info
+
+theorem referenceText_eq (r : Reference) (hp : ∀ v, r.pubmed = some v → noEOL v = true) :
+    referenceText r = .ok (refHead r ++ 10 :: subLinesText (presentLines r)) := by
+  have l0 : bs "  AUTHORS   " = sp 2 ++ (bs "AUTHORS" ++ sp 3) := by decide
+  have l1 : bs "  CONSRTM   " = sp 2 ++ (bs "CONSRTM" ++ sp 3) := by decide
+  have l2 : bs "  TITLE     " = sp 2 ++ (bs "TITLE" ++ sp 5) := by decide
+  have l3 : bs "  JOURNAL   " = sp 2 ++ (bs "JOURNAL" ++ sp 3) := by decide
+  have l4 : bs "   PUBMED   " = sp 3 ++ (bs "PUBMED" ++ sp 3) := by decide
+  have l5 : bs "  REMARK    " = sp 2 ++ (bs "REMARK" ++ sp 4) := by decide
+  obtain ⟨n, i, a, g, t, j, p, c⟩ := r
+  simp only [referenceText, refHead]
+  congr 1
+  have hpv : ∀ v, p = some v → addPrefix (sp 12) v = v := fun v hv => addPrefix_noLF _ v (hp v hv)
+  have hs : ∀ (k : Fin 6) (v : Bytes), subLineText ⟨k, v⟩ =
+      sp (slotA k) ++ (bs (slotName k) ++ (sp (slotB k) ++ (addPrefix (sp 12) v ++ [10]))) := fun _ _ => rfl
+  have v0 : ((0 : Fin 6) : Nat) = 0 := rfl
+  have v1 : ((1 : Fin 6) : Nat) = 1 := rfl
+  have v2 : ((2 : Fin 6) : Nat) = 2 := rfl
+  have v3 : ((3 : Fin 6) : Nat) = 3 := rfl
+  have v4 : ((4 : Fin 6) : Nat) = 4 := rfl
+  have v5 : ((5 : Fin 6) : Nat) = 5 := rfl
+  cases a <;> cases g <;> cases t <;> cases j <;> cases p <;> cases c <;>
+    simp [presentLines, subLinesText, hs, slotA, slotB, slotName, refNames, l0, l1, l2, l3, l4, l5, indent,
+      v0, v1, v2, v3, v4, v5, hpv,
+      addPrefix_noLF, List.append_assoc, Bind.bind, Except.bind, pure, Except.pure]
+
+/-- the domain of a reference: a non-negative number, an info line without line end that does not
+start with a digit when the number leaves no room for a blank, sub-field values without carriage
+return that do not start with a blank -/
+def referenceOk (r : Reference) : Bool :=
+  decide (0 ≤ r.number ∧ r.number ≤ 9223372036854775807) && noEOL r.info &&
+  (decide ((itoaB r.number).length < 3) || match r.info with | [] => true | c :: _ => !isDigit c) &&
+  (presentLines r).all fun l => subValueOk l.v
 
 end Gts.GenBank
